@@ -11,7 +11,9 @@ RULE = ('atomically balanced stoichiometries drawn from the null space of the C/
         'package (integer molecular weights, dyadic and a few non-dyadic coefficients, any participating chemical as reactant), '
         'written as strings or dicts (so _parse/_xparse are exercised), mol and wt basis (constructed or re-based), used alone '
         'or as ParallelReaction / SeriesReaction / ReactionSystem of 1-4 reactions, phase-less or phase-tagged, applied to '
-        'Stream / MultiStream, numpy arrays, bare SparseVector / SparseArray, the mass view, streams on three other packages '
+        'Stream / MultiStream, numpy arrays, bare SparseVector / SparseArray, the mass view, streams on three other packages, '
+        'and the reaction object itself moved to one of those packages by reset_chemicals and used there (one chemical ID '
+        'begins with the letter e, which the string parsers must not read as an exponent) '
         '(permuted, subset, superset) and malformed inputs (unknown chemical/phase, repeated chemical, missing reactant, '
         'mixed bases, wrong shapes, phase mismatch, infeasible conversions, the 1e-12 clamp window). Compared: constructor '
         'exception class, call exception class, all flows after the call (1e-9 relative), flows left behind by an exception. '
@@ -27,14 +29,15 @@ TRUSTED = ['model coq/C05/Model.v is hand-written from thermosteam/reaction/_rea
            'stub chemicals: Chemical._MW is overwritten with integer weights (H=1, C=12, O=16) so that MW.S = 0 exactly']
 
 N = 8
-IDS = ['Ca', 'Cb', 'Cc', 'Cd', 'Ce', 'Cf', 'Cg', 'Ch']
+IDS = ['Ca', 'Cb', 'Cc', 'Cd', 'Ce', 'Cf', 'Cg', 'eH']      # one ID begins with 'e' (the parsers treat 'e' as an exponent mark)
 FORMULAS = ['CH4', 'C2H4', 'O2', 'CO2', 'H2O', 'H2', 'C2H6O', 'CO']
 ATOMS = [(1, 4, 0), (2, 4, 0), (0, 0, 2), (1, 0, 2), (0, 2, 1), (0, 2, 0), (2, 6, 1), (1, 0, 1)]   # C, H, O
 AW = (12, 1, 16)
 MW = [sum(a * w for a, w in zip(at, AW)) for at in ATOMS]
-PKG = {'B': ['Ce', 'Cc', 'Ca', 'Cd', 'Ch', 'Cb', 'Cf'],            # permuted, lacks Cg
+MWX = dict(zip(IDS, MW), Cz=30)
+PKG = {'B': ['Ce', 'Cc', 'Ca', 'Cd', 'eH', 'Cb', 'Cf'],            # permuted, lacks Cg
        'C': ['Ca', 'Cc', 'Cd'],                                    # small subset
-       'D': ['Ca', 'Cb', 'Cc', 'Cz', 'Cd', 'Ce', 'Cf', 'Cg', 'Ch']}  # superset with an extra chemical
+       'D': ['Ca', 'Cb', 'Cc', 'Cz', 'Cd', 'Ce', 'Cf', 'Cg', 'eH']}  # superset with an extra chemical
 PH = {'g': 1, 'l': 2, 's': 3, 'L': 4, 'S': 5}
 ERR = {'InfeasibleRegion': 'EInfeasible', 'ValueError': 'EValue', 'TypeError': 'EType', 'IndexError': 'EIndex',
        'RuntimeError': 'ERuntime', 'UndefinedChemicalAlias': 'EKey', 'UndefinedChemical': 'EKey',
@@ -214,8 +217,17 @@ def gen_case(rng):
     else:
         mk = rng.choice(['stream'] * 5 + ['numpy', 'numpy', 'sparse', 'massview', 'other', 'other', 'other', 'numpybaddim',
                                           'numpylen'] + (['multinophase'] if kind == 'single' else []))
+    if kind != 'system' and mal is None and rng.random() < 0.08:
+        mk = 'retarget'        # the reaction object itself is moved to another package (reset_chemicals), then used there
     mat = {'kind': mk}
     rich = rng.random() < 0.75
+    if mk == 'retarget':
+        pkg = rng.choice(['B', 'B', 'D', 'D', 'C'])
+        mat['pkg'] = pkg
+        mat['sub'] = rng.choice(['stream', 'stream', 'numpy'])
+        mat['flows'] = gen_feed(rng, case, P * len(PKG[pkg]), rich, [i for _ in range(P) for i in PKG[pkg]])
+        case['material'] = mat
+        return case
     if mk == 'other':
         pkg = rng.choice(['B', 'B', 'D', 'D', 'C'])
         mat['pkg'] = pkg
@@ -439,6 +451,8 @@ def build_obj(case, log=None):
             parts[i].basis = b
     if case.get('history'):
         apply_history(case, sets, log)
+    if case['material']['kind'] == 'retarget':
+        obj.reset_chemicals(env()['thermo'][case['material']['pkg']].chemicals)
     return obj
 
 def make_material(case, flows=None):
@@ -458,6 +472,10 @@ def make_material(case, flows=None):
             s.imol.data[:] = flows
         return s, (lambda: np.asarray(s.imol.data.to_array(), float).reshape(-1))
     if kind == 'stream': return stream('A', ph)
+    if kind == 'retarget':
+        if m['sub'] == 'stream': return stream(m['pkg'], ph)
+        a = flows.reshape(len(ph), -1) if ph else flows
+        return a, (lambda: a.reshape(-1))
     if kind == 'other': return stream(m['pkg'], ph)
     if kind == 'badphases': return stream('A', m['stream_phases'])
     if kind == 'multinophase': return stream('A', ['g', 'l', 's'][:m['P']])
@@ -527,6 +545,13 @@ def mws_term(case):
     if case['material']['kind'] == 'multinophase': P = case['material']['P']
     return qlist(MW * P)
 
+def call_mws_term(case):
+    """molecular weights in the layout of the data the call works on"""
+    m = case['material']
+    if m['kind'] == 'retarget':
+        return qlist([MWX[i] for i in PKG[m['pkg']]] * max(1, len(case['phases'])))
+    return mws_term(case)
+
 KIND = {'single': 'KSingle', 'parallel': 'KParallel', 'series': 'KSeries'}
 def cobj(case):
     rs = [crxn(case, s) for s in case['rxns']]
@@ -541,7 +566,9 @@ def cobj(case):
 
 def crun(case):
     m = case['material']; kind = m['kind']; ph = case['phases']; P = max(1, len(ph))
-    v = qlist(m['flows']); mws = mws_term(case); pt = cbool(bool(ph))
+    v = qlist(m['flows']); mws = call_mws_term(case); pt = cbool(bool(ph))
+    if kind == 'retarget':
+        return f'(fun o => call {pt} {mws} o ({"MStream" if m["sub"] == "stream" else "MNumpy"} {v}))'
     if kind == 'multinophase':
         return (f'(fun o => match o with Simple _ (Single r) => call_multi_nophase {mws} r {cnat(m["P"])} {v} '
                 f'| _ => (Some EOther, []) end)')
@@ -571,6 +598,14 @@ def chop(o):
     if n == 'backwards': return f'(HBackwards {cnat(o[1])} {copt(o[2], cnat)} {copt(o[3], q)})'
     raise ValueError(n)
 
+def cobj_final(case):
+    """the object after Reaction / ReactionSet.reset_chemicals, when the case moves it to another package"""
+    m = case['material']
+    if m['kind'] != 'retarget': return cobj(case)
+    P = max(1, len(case['phases'])); ids = PKG[m['pkg']]; nB = len(ids)
+    tbl = [(p * nB + ids.index(i)) if i in ids else None for p in range(P) for i in IDS]
+    return f'(retarget_obj {cnat(P * nB)} {clist(tbl, lambda x: copt(x, cnat))} {cobj(case)})'
+
 def coq_case(case, out):
     d = qlist([F(x) for x in out['data']])
     other = cbool(case["material"]["kind"] == "other")
@@ -579,7 +614,7 @@ def coq_case(case, out):
         return (f'(hist_case_eqb {other} {mws_term(case)} {cobj(case)} {clist([chop(o) for o in h["ops"]])} '
                 f'{clist(h["oks"], cbool)} {clist([csnap(x) for x in h["derived"]])} {crun(case)} '
                 f'{cerr(out["ctor_err"])} {cerr(out["err"])} {d})')
-    return (f'(case_eqb {other} {cobj(case)} {crun(case)} '
+    return (f'(case_eqb {other} {cobj_final(case)} {crun(case)} '
             f'{cerr(out["ctor_err"])} {cerr(out["err"])} {d})')
 
 def coq_show(case, out):
@@ -674,16 +709,21 @@ def oracle(case):
     if case['kind'] != 'single' and len({(s['rebase'] or s['basis']) for s in case['rxns']}) > 1: return None
     mixed = case.get('post_rebase')               # a member re-based after construction: RuntimeError is the documented outcome
     log = {}
+    okind = kind
+    pkg = m.get('pkg') if kind in ('other', 'retarget') else None
     try:
         obj = build_obj(case, log)
     except Exception as ex:
+        if okind == 'retarget' and any(t[1] not in PKG[pkg] for s_ in case['rxns'] for t in s_['terms']):
+            return None                             # the target package lacks a chemical of the reaction
         return f'construct: well-formed reaction rejected with {type(ex).__name__}: {ex}'
+    if okind == 'retarget': kind = m['sub']         # from here on: an ordinary stream / array of the target package
     basis = case['rxns'][0]['rebase'] or case['rxns'][0]['basis']
     mat, read = make_material(case)
     before = [F(x) for x in m['flows']]
     # molar flows by chemical of the reaction's package
-    if kind == 'other':
-        ids = PKG[m['pkg']]; nB = len(ids)
+    if pkg:
+        ids = PKG[pkg]; nB = len(ids)
         molA = [F(0)] * (P * N)
         foreign = False
         for p in range(P):
@@ -691,7 +731,7 @@ def oracle(case):
                 x = before[p * nB + j]
                 if i in IDS: molA[p * N + IDS.index(i)] = x
                 elif x: foreign = True
-        if foreign: return None                     # the stream holds a chemical the reaction's package lacks
+        if foreign and okind == 'other': return None   # the stream holds a chemical the reaction's package lacks
     elif kind == 'multinophase':
         PP = m['P']
         molA = before
@@ -735,7 +775,7 @@ def oracle(case):
         if name == 'InfeasibleRegion':
             if neg < -1e-13: return None
             return f'infeasible: InfeasibleRegion raised although no flow would become negative (sum of negatives {neg})'
-        if kind == 'other' and name in ('UndefinedChemicalAlias', 'UndefinedChemical'):
+        if okind == 'other' and name in ('UndefinedChemicalAlias', 'UndefinedChemical'):
             ids = PKG[m['pkg']]
             if any(x != 0 and IDS[k % N] not in ids for k, x in enumerate(expect)): return None
         return f'{kind}: well-formed call raised {name}: {err}'
@@ -743,8 +783,10 @@ def oracle(case):
         return f'infeasible: returned normally although flows of {neg} would be negative'
     got = [float(x) for x in read()]
     if min(got) < 0: return f'negative: normal return with a negative flow {min(got)}'
-    if kind == 'other':
-        ids = PKG[m['pkg']]; nB = len(ids)
+    if pkg:
+        ids = PKG[pkg]; nB = len(ids)
+        if okind == 'retarget' and any(got[k] != float(before[k]) for k in range(P * nB) if ids[k % nB] not in IDS):
+            return f'retarget: a chemical outside the reaction changed: {got}'
         if len(got) != P * nB:
             return (f'other-package: stream on package {m["pkg"]} ({nB} chemicals) holds data of shape {len(got) // P} per phase '
                     f'after the reaction (expected flows by name: '
@@ -777,7 +819,7 @@ def oracle(case):
         if abs(np.dot(MW, ta) - np.dot(MW, tb)) > 1e-9 * scale * 64:
             return f'mass: total mass changed from {np.dot(MW, tb)} to {np.dot(MW, ta)}'
     # both bases give the same result on a stream
-    if kind == 'stream' and not mixed:
+    if okind == 'stream' and not mixed:
         other = 'wt' if basis == 'mol' else 'mol'
         alt = dict(case, rxns=[dict(s, rebase=(None if s['basis'] == other else other)) for s in case['rxns']])
         try:
@@ -795,7 +837,8 @@ def finding_key(case, msg):
     head = msg.split(':')[0]
     return {'multistream': 'C05:phaseless-reaction-on-multistream',
             'sparse-array': 'C05:bare-sparse-array-not-reacted',
-            'other-package': 'C05:other-package-multistream-not-restored'}.get(head, 'C05:' + head)
+            'other-package': 'C05:other-package-multistream-not-restored'}.get(
+                head, 'C05:' + head + (':' + msg.split('with ')[1].split(':')[0] if head == 'construct' and 'with ' in msg else ''))
 
 def mismatch_key(case, out):
-    return f"{case['material']['kind']}/{'pt' if case['phases'] else 'pl'}/{case['kind']}/{out.get('ctor_err')}/{out.get('err')}"
+    return f"{case['material']['kind']}{case['material'].get('sub', '')}/{'pt' if case['phases'] else 'pl'}/{case['kind']}/{out.get('ctor_err')}/{out.get('err')}"
